@@ -61,8 +61,8 @@ def extract():
 # cases
 # ----------------------------------------------------------------------------------------------
 def gen_cases(rng, tier):
-    n_sq = 1200 if tier == "quick" else 12000
-    n_gen = 200 if tier == "quick" else 2000
+    n_sq = 1200 if tier == "quick" else 30000
+    n_gen = 200 if tier == "quick" else 3000
     out = []
     g = sp.SGen(rng)
     gflat = sp.SGen(rng, p_subq=0.0, max_depth=0, p_with=0.0)
@@ -120,17 +120,17 @@ def corpus():
                "orderby": [[["t", F("b", 0)], None]]})},
         # shapes that must stay right
         {"kind": "sq", "order": 1, "spec": sel(
-            **{"from": [T("t")], "joins": [["left", T("u", "x"), ["on", ["t", ["basic", "eq", F("a", 0), F("a", 1), None]]]],
-                                            ["inner", T("t"), ["using", ["id"]]]],
+            **{"from": [T("t")], "joins": [["inner", T("v"), ["using", ["id"]]],
+                                            ["left", T("u", "x"), ["on", ["t", ["basic", "eq", F("a", 0), F("a", 2), None]]]]],
                "distinct": True,
-               "selects": [["t", ["arith", "add", F("a", 0), I(1), "al"]], ["t", F("b", 1)], ["t", ["func", "SUM", [F("c", 0)], None]]],
-               "where": ["t", ["cplx", "and", ["basic", "gt", F("a", 0), I(2), None],
-                               ["cplx", "or", ["isnull", F("b", 1), None], ["basic", "lt", F("c", 1), I(5), None], None], None]],
-               "groupby": [["t", ["arith", "add", F("a", 0), I(1), "al"]], ["t", F("b", 1)]],
-               "having": ["t", ["basic", "gt", ["func", "SUM", [F("c", 0)], None], I(0), None]],
-               "orderby": [[["t", ["arith", "add", F("a", 0), I(1), "al"]], "desc"], [["t", F("b", 1)], None],
-                           [["t", ["func", "SUM", [F("c", 0)], None]], "asc"]],
-               "limit": 10, "offset": 2})},
+               "selects": [["t", ["arith", "add", F("a", 0), I(1), "al"]], ["t", F("b", 2)], ["t", ["func", "SUM", [F("c", 1)], None]]],
+               "where": ["t", ["cplx", "and", ["basic", "gt", F("a", 0), I(0), None],
+                               ["cplx", "or", ["isnull", F("b", 2), None], ["basic", "lt", F("c", 2), I(5), None], None], None]],
+               "groupby": [["t", ["arith", "add", F("a", 0), I(1), "al"]], ["t", F("b", 2)]],
+               "having": ["t", ["basic", "gt", ["func", "SUM", [F("c", 1)], None], I(0), None]],
+               "orderby": [[["t", ["arith", "add", F("a", 0), I(1), "al"]], "desc"], [["t", F("b", 2)], None],
+                           [["t", ["func", "SUM", [F("c", 1)], None]], "asc"]],
+               "limit": 10, "offset": 1})},
         {"kind": "sq", "order": 2, "spec": sel(
             **{"with": [["cte", sel(**{"from": [T("u")], "selects": [["t", F("a", 0)], ["t", F("b", 0, "n")]]})]],
                "from": [T("t"), ["a", "cte"]],
